@@ -11,8 +11,8 @@ import (
 var c08Templates = [][]string{
 	// 0: prints, let, if, foreach, call with data=all and params, across two files
 	{"{namespace a}\n/** @param x\n @param l\n @param m */\n{template .t}\n{$x}{let $y: $x /}{if $x}[{$y}]{/if}{foreach $i in $l}{$i}{isLast($i) ? '' : ','}{ifempty}none{/foreach}" +
-		"{call b.u data=\"all\"}{param p: $x /}{param q}<{$x}>{/param}{/call}{call .v data=\"$m\" /}{call .v data=\"$m ?: $m\"}{param k: $x /}{param j}c{/param}{/call}{call .v data=\"$x ? $m : $m\"}{param j: 1 /}{/call}{call .v data=\"$m\"}{param k: 2 /}{/call}\n{/template}\n/** @param? k\n @param? j */\n{template .v}\n({$k}{$j ?: ''}){let $k2: 1/}{$k2}\n{/template}\n",
-		"{namespace b}\n/** @param x\n @param p\n @param q\n @param l */\n{template .u}\n{$p}{$q|noAutoescape}{let $x2: $x /}{foreach $j in $l}{$j}{/foreach}{$x2|escapeUri}\n{/template}\n"},
+		"{call b.u data=\"all\"}{param p: $x /}{param q}<{$x}>{/param}{/call}{call .v data=\"$m\" /}{call .v data=\"$m ?: $m\"}{param k: $x /}{param j}c{/param}{/call}{call .v data=\"$x ? $m : $m\"}{param j: 1 /}{/call}{call .v data=\"$m\"}{param k: 2 /}{/call}\n{/template}\n/** @param? k\n @param? j */\n{template .v autoescape=\"false\"}\n({$k}{$j ?: ''}){let $k2: 1/}{$k2}\n{/template}\n",
+		"{namespace b}\n/** @param x\n @param p\n @param q\n @param l */\n{template .u}\n{$p}{$q|noAutoescape}{let $x2: $x /}{foreach $j in $l}{$j}{/foreach}{$x2|escapeUri}{call .raw data=\"all\"/}{$x}\n{/template}\n/** @param x */\n{template .raw autoescape=\"false\"}\n{$x}\n{/template}\n"},
 	// 1: msg, css, switch, literal, globals-free expressions, map/list literals
 	{"{namespace a}\n/** @param x\n @param l */\n{template .t}\n{foreach $e in $l}{$e}{/foreach}{msg desc=\"d\"}Hi <b>{$x}</b>{/msg}{css $x, c}{switch $x}{case 'a'}A{default}D{/switch}" +
 		"{let $mm: ['k': $x, 'j': [1, 2]] /}{$mm['k']}{$mm.j[1]}{keys($mm)|length}{let $am: augmentMap($mm, ['z': 1]) /}{$am.z}{$ij.inj}\n{/template}\n"},
@@ -99,8 +99,13 @@ func H_pure(t, d int, oblig bool, prior int) {
 		ObligatoryPrintDirectiveNames = []string{"verifBang"}
 	}
 	m, ij := c08Data(d), data.Map{"inj": data.String("I")}
-	before := verifDeepDigest(tofu, m, ij) + verifGlobalsDigest()
+	shared := tofu.NewRenderer("a.t").Inject(ij)
+	if c08Msgs != nil {
+		shared = shared.WithMessages(c08Msgs)
+	}
+	before := verifDeepDigest(tofu, m, ij, shared) + verifGlobalsDigest()
 	verifFreeze("compiled registry", tofu)
+	verifFreeze("renderer", shared)
 	verifFreeze("caller data", m, ij)
 	verifFreezeGlobals()
 	out0, err0 := verifRenderIJ(tofu, "a.t", m, ij)
@@ -122,10 +127,17 @@ func H_pure(t, d int, oblig bool, prior int) {
 		mid, ok := decodeEntities(po[len(pre) : len(po)-len(suf)])
 		verifAssert(ok && mid == string(m["x"].(data.String)), "a render after a render of another template loses its escaping")
 	}
-	out1, err1 := verifRenderIJ(tofu, "a.t", m, ij)
-	out2, err2 := verifRenderIJ(tofu, "a.t", m, ij)
+	// the later renders go through the one Renderer created (and frozen) before the first render:
+	// a Renderer carries no per-render state, Execute may be called on it any number of times
+	exec := func() (string, error) {
+		var out []byte
+		err := shared.Execute(&sliceWriter{&out}, m)
+		return string(out), err
+	}
+	out1, err1 := exec()
+	out2, err2 := exec()
 	verifUnfreeze()
-	after := verifDeepDigest(tofu, m, ij) + verifGlobalsDigest()
+	after := verifDeepDigest(tofu, m, ij, shared) + verifGlobalsDigest()
 	verifObserve("out", out0)
 	verifAssert((err0 == nil) == (err1 == nil) && (err1 == nil) == (err2 == nil), "a later render of the same template with the same data differs in outcome")
 	verifAssert(out0 == out1 && out1 == out2, "a later render of the same template with the same data writes different bytes")
@@ -140,6 +152,9 @@ func H_pure(t, d int, oblig bool, prior int) {
 				defer wg.Done()
 				for r := 0; r < 20; r++ {
 					o, _ := verifRenderIJ(tofu, "a.t", m, ij)
+					if g%2 == 1 {
+						o, _ = exec() // half of the goroutines share the one Renderer
+					}
 					if o != out0 {
 						outs[g] = o
 					}
